@@ -45,6 +45,12 @@ func c02Programs(ctx *Ctx) [][]tStmt {
 		{{Op: "V"}, {Op: "out"}, {Op: "hasLabel", Strs: []string{"Q"}}},
 		{{Op: "V", Strs: []string{"a", "b"}}, {Op: "hasLabel", Strs: []string{"P"}}},
 		{{Op: "E"}, {Op: "hasLabel", Strs: []string{"knows"}}},
+		// vertices reached through an edge's endpoint lookup or through the label index, then filtered by label only
+		{{Op: "E"}, {Op: "out"}, {Op: "hasLabel", Strs: []string{"Q"}}},
+		{{Op: "E"}, {Op: "in"}, {Op: "hasLabel", Strs: []string{"P"}}},
+		{{Op: "E"}, {Op: "both"}, {Op: "hasLabel", Strs: []string{"P", "R"}}},
+		{{Op: "V"}, {Op: "hasLabel", Strs: []string{"P", "Q"}}, {Op: "hasLabel", Strs: []string{"P"}}},
+		{{Op: "V"}, {Op: "hasId", Strs: []string{"a", "b", "c"}}, {Op: "hasLabel", Strs: []string{"P"}}},
 		{{Op: "V"}},
 		// a window or a mark between the scan and the filter: the filter must not be moved in front of it
 		// (the model graph lists elements in the store's scan order, so the window cuts the same rows)
@@ -74,6 +80,9 @@ func c02Programs(ctx *Ctx) [][]tStmt {
 		{{Op: "outE"}, {Op: "out"}, {Op: "path"}},
 		{{Op: "outE"}, {Op: "hasLabel", Strs: []string{"knows"}}, {Op: "out"}},
 		{{Op: "both"}, {Op: "count"}}, {{Op: "bothE"}},
+		// in-edges and both-edges followed by a move (their endpoints are read without their data)
+		{{Op: "inE"}, {Op: "out"}}, {{Op: "inE"}, {Op: "in"}, {Op: "count"}}, {{Op: "bothE"}, {Op: "out"}}, {{Op: "bothE"}, {Op: "in"}, {Op: "hasLabel", Strs: []string{"P"}}, {Op: "count"}},
+		{{Op: "inE"}, {Op: "as", Str: "e"}, {Op: "out"}, {Op: "render", Tpl: map[string]interface{}{"f": "$e._from", "t": "$e._to", "d": "$e._data", "w": "$e._data.w"}}},
 		// a mark read only under not() / inside or()
 		{{Op: "as", Str: "m"}, {Op: "out"}, {Op: "has", Has: &hExpr{Kind: "not", Es: []hExpr{*mname}}}},
 		{{Op: "as", Str: "m"}, {Op: "outE"}, {Op: "has", Has: &hExpr{Kind: "or", Es: []hExpr{{Kind: "not", Es: []hExpr{*mname}}, *w2}}}, {Op: "count"}},
@@ -100,7 +109,7 @@ func runC02(ctx *Ctx) error {
 	ctx.CaseTy = "c02_case"
 	ctx.Shard = 150
 	ctx.HasKF = true
-	ctx.Rule = "(a0) inspect.PipelineSteps / PipelineStepOutputs on ~500 random programs of <= 8 statements that read properties directly, through marks (also one name marked twice, undefined names, $__current__), in has/hasKey/distinct/unwind/fields/render, behind moves, counts, selects and windows, against Model/LoadPlan.v, and the observed outputs against the covering predicate of C02_loads_cover; non-trivial = some step is elided; (a) the statement list core.IndexStartOptimize returns for filter runs in every shape the rewrite distinguishes (hasId/hasLabel with duplicates and empty lists, has() on _gid/_label under every key spelling, operator and argument type, nested/empty and(), or(), not(), unset; every single filter in four positions plus random runs of <= 4 after V()/V(ids)/E()) against the list Model/Optimize.v computes, and the plan's meaning in the model on a graph with unique vertex ids; non-trivial = the plan differs from the program; (b) production compiler (index-start rewrite + load elision) vs the literal semantics: 28 start shapes (every spelling of a leading label / id filter, duplicated labels and ids, and()-wrapped forms, negated forms, filters after a move, after a window and after a mark) x 22 tails that read properties of the current element, of earlier steps and of marks (has/render/select/fields/unwind/distinct/hasKey/path over vertex and edge marks), on the fixed graph and on random graphs, plus the C01 random program space; non-trivial = well typed with >= 1 row; distinct by (graph, program)"
+	ctx.Rule = "(a0) inspect.PipelineSteps / PipelineStepOutputs on ~500 random programs of <= 8 statements that read properties directly, through marks (also one name marked twice, undefined names, $__current__), in has/hasKey/distinct/unwind/fields/render, behind moves, counts, selects and windows, against Model/LoadPlan.v, and the observed outputs against the covering predicate of C02_loads_cover; non-trivial = some step is elided; (a1) the same tables for ~400 programs with aggregate (fields of term / histogram / percentile / field / type aggregations, also through marks), set, increment, jump with and without a condition, mark and the null-producing moves, against the extension of the model to those statements (C02_x_loads_cover); (a) the statement list core.IndexStartOptimize returns for filter runs in every shape the rewrite distinguishes (hasId/hasLabel with duplicates and empty lists, has() on _gid/_label under every key spelling, operator and argument type, nested/empty and(), or(), not(), unset; every single filter in four positions plus random runs of <= 4 after V()/V(ids)/E()) against the list Model/Optimize.v computes, and the plan's meaning in the model on a graph with unique vertex ids; non-trivial = the plan differs from the program; (b) production compiler (index-start rewrite + load elision) vs the literal semantics: 28 start shapes (every spelling of a leading label / id filter, duplicated labels and ids, and()-wrapped forms, negated forms, filters after a move, after a window and after a mark) x 22 tails that read properties of the current element, of earlier steps and of marks (has/render/select/fields/unwind/distinct/hasKey/path over vertex and edge marks), on the fixed graph and on random graphs, plus the C01 random program space; non-trivial = well typed with >= 1 row; distinct by (graph, program)"
 	var inputs []c01Input
 	if ctx.Replay != nil {
 		var in c01Input
@@ -115,6 +124,10 @@ func runC02(ctx *Ctx) error {
 			addLoadCases(ctx, [][]tStmt{in.Prog})
 			return nil
 		}
+		if in.Driver == "loadx" {
+			addLoadXCases(ctx, [][]tStmt{in.Prog})
+			return nil
+		}
 		inputs = []c01Input{in}
 	} else {
 		fg := fixedGraph()
@@ -127,6 +140,7 @@ func runC02(ctx *Ctx) error {
 		}
 		addPlanCases(ctx, planGraphs, append(c02PlanPrograms(ctx), progs...))
 		addLoadCases(ctx, append(c02LoadPrograms(ctx), progs...))
+		addLoadXCases(ctx, c02LoadXPrograms(ctx))
 		for _, p := range progs {
 			inputs = append(inputs, c01Input{Driver: "badger", Graph: fg, Prog: p})
 		}
